@@ -106,6 +106,8 @@ def run(tier, seed):
     info = {
         "rule": "every tabulated Wyckoff position of every Hall setting over the tiers (quick: every second row, parity by seed; "
                 "thorough: all 3467 rows in >= 3 descriptions) with a general-position species, own and re-described cells, "
+                "Spglib/Standard alternating plus Setting::HallNumber(generating Hall number) for a slice (quick: every setting that "
+                "neither convention reports at least once per run; thorough: every row), "
                 "plus mode hall; non-trivial when a dataset with >= 2 orbits was returned for a re-described input",
     }
 
@@ -125,6 +127,11 @@ def run(tier, seed):
                 special += 1 if len(rs) >= 2 else 0
         info["wyckoff_rows_decorated"] = len(rows)
         info["cases_with_special_position"] = special
+        # explicit Hall-number requests (settings that Spglib/Standard never report)
+        req_lines = [l for l in per_mode.get("wyckoff", ([], []))[0] if (pipe.seg(l, "setting") or "").startswith("hall")]
+        info["hall_number_requests"] = len(req_lines)
+        info["hall_numbers_requested"] = len(set(pipe.seg(l, "setting") for l in req_lines))
+        info["hall_number_requests_refused"] = sum(1 for l in req_lines if pipe.seg(l, "out") != "ok")
         log(f"[C07] correspondences: {info.get('parser_disagreements')} parser, {info.get('orbit_disagreements')} orbit, "
             f"{info.get('table_failures')} table failures; {len(rows)} table rows decorated")
         return fails
